@@ -615,6 +615,13 @@ def _r5_termination(run: Run, mod) -> None:
                 run.violate("R5", f"{MOD}:{c.name}._eval_derivative:{norm(call, 50)}", mod, call,
                             f"{c.name}._eval_derivative {why}: differentiating such an expression with a parameter-dependent operand never terminates")
     run.floor("R5", n, 8, "diff() calls inside _eval_derivative methods")
+    # differentiation enters these classes only through _eval_derivative (decided by R3/R5); any other SymPy differentiation hook would bypass both rules
+    OTHER_HOOKS = ("_eval_derivative_n_times", "fdiff", "diff", "_eval_diff", "_eval_derivative_matrix_lines")
+    for c in classes.values():
+        extra = [f_.name for f_ in c.body if isinstance(f_, ast.FunctionDef) and f_.name in OTHER_HOOKS]
+        if extra and c.name != "VectorDerivative":
+            raise AnalysisError(f"C14: {c.name} defines the differentiation hook(s) {extra}, which this check does not decide (only _eval_derivative is evaluated): "
+                                f"no verdict on the derivative clause")
 
 
 def check(run: Run) -> None:
